@@ -28,6 +28,7 @@ type ir2 struct {
 	siteAt map[int]int // file offset of a statement / condition -> site
 	funcs  map[string]*ast.FuncDecl
 	consts map[string]string // package-level integer constants with a literal value
+	narrow map[string]bool   // struct fields of an integer type other than int / int64
 	api    map[string]bool
 	// per function
 	scopes   []map[string]string
@@ -216,11 +217,17 @@ func (g *ir2) expr(e ast.Expr, pre *[]string, bad *bool) string {
 				return "(EUnknown " + gstr(g.x.src(t)) + ")" // package-qualified name
 			}
 		}
+		if g.narrow[t.Sel.Name] {
+			return "(EUnknown " + gstr("field of a narrow integer type "+g.x.src(t)) + ")"
+		}
 		// a plain field read through a local or the receiver (a receiver without a value of its
 		// own - the wait group - evaluates to VUnit, and a field of VUnit is stuck)
 		return "(EField " + g.expr(t.X, pre, bad) + " " + gstr(t.Sel.Name) + ")"
 	case *ast.CallExpr:
 		if k, f, ok := g.x.sharedOp(t); ok {
+			if g.narrow[f] {
+				return "(EUnknown " + gstr("atomic of a narrow integer type "+g.x.src(t)) + ")"
+			}
 			args := make([]string, len(t.Args))
 			for i, a := range t.Args {
 				args[i] = g.expr(a, pre, bad)
@@ -237,7 +244,13 @@ func (g *ir2) expr(e ast.Expr, pre *[]string, bad *bool) string {
 		}
 		if id, ok := t.Fun.(*ast.Ident); ok {
 			if convNames[id.Name] && len(t.Args) == 1 {
-				return "(EConv " + g.expr(t.Args[0], pre, bad) + ")"
+				// only conversions to the API's own integer type are the identity on the model's
+				// integers; a conversion to a narrower or unsigned type is modular arithmetic
+				// (int32(delta), uint32(delta)): not translated, so such code cannot pass the tie
+				if id.Name == "int" || id.Name == "int64" {
+					return "(EConv " + g.expr(t.Args[0], pre, bad) + ")"
+				}
+				return "(EUnknown " + gstr("narrowing conversion "+g.x.src(t)) + ")"
 			}
 			if id.Name == "make" && len(t.Args) >= 1 {
 				if _, ok := t.Args[0].(*ast.ChanType); ok {
@@ -382,8 +395,13 @@ func (g *ir2) stmt(s ast.Stmt) []string {
 		defer g.pop()
 		var out []string
 		if t.Init != nil {
-			if _, sited := g.siteAt[g.off(t.Pos())]; sited {
-				return g.other(t) // the instrumenter put the yield in front of the whole statement
+			if site, sited := g.siteAt[g.off(t.Pos())]; sited {
+				// the instrumenter put the yield in front of the whole statement: it belongs to the
+				// init statement when the operation is there and the condition has none
+				if g.hasAtomic(t.Cond) || !g.hasAtomic(t.Init) {
+					return g.other(t)
+				}
+				g.siteAt[g.off(t.Init.Pos())] = site
 			}
 			out = append(out, g.stmt(t.Init)...)
 		}
@@ -686,6 +704,30 @@ func (g *ir2) stmt(s ast.Stmt) []string {
 	return g.other(s)
 }
 
+// recvType: the receiver's type name of a method (without * and type parameters)
+func recvType(fd *ast.FuncDecl) string {
+	if fd.Recv == nil || len(fd.Recv.List) == 0 {
+		return ""
+	}
+	t := fd.Recv.List[0].Type
+	for {
+		switch u := t.(type) {
+		case *ast.StarExpr:
+			t = u.X
+		case *ast.ParenExpr:
+			t = u.X
+		case *ast.IndexExpr:
+			t = u.X
+		case *ast.IndexListExpr:
+			t = u.X
+		case *ast.Ident:
+			return u.Name
+		default:
+			return "?"
+		}
+	}
+}
+
 func stripParens(e ast.Expr) ast.Expr {
 	for {
 		p, ok := e.(*ast.ParenExpr)
@@ -808,6 +850,28 @@ func emitIR2(x *xl, fset *token.FileSet, f *ast.File, siteAt map[int]int, api []
 	for _, a := range api {
 		g.api[a] = true
 	}
+	g.narrow = map[string]bool{}
+	ast.Inspect(f, func(n ast.Node) bool {
+		st, ok := n.(*ast.StructType)
+		if !ok {
+			return true
+		}
+		for _, fl := range st.Fields.List {
+			ty := x.src(fl.Type)
+			isNarrow := false
+			switch ty {
+			case "int8", "int16", "int32", "uint", "uint8", "uint16", "uint32", "uint64", "uintptr", "byte", "rune",
+				"atomic.Int32", "atomic.Uint32", "atomic.Uint64", "atomic.Uintptr":
+				isNarrow = true
+			}
+			for _, nm := range fl.Names {
+				if isNarrow {
+					g.narrow[nm.Name] = true
+				}
+			}
+		}
+		return true
+	})
 	g.consts = map[string]string{}
 	for _, d := range f.Decls {
 		gd, ok := d.(*ast.GenDecl)
@@ -847,6 +911,23 @@ func emitIR2(x *xl, fset *token.FileSet, f *ast.File, siteAt map[int]int, api []
 	}
 	for n := range dup {
 		delete(g.funcs, n) // two methods of one name on different types: not resolved without types
+	}
+	// the API functions are the methods of the type the constructor hands out
+	core := ""
+	for _, d := range f.Decls {
+		if fd, ok := d.(*ast.FuncDecl); ok && fd.Recv == nil && strings.HasPrefix(fd.Name.Name, "New") &&
+			fd.Type.Results != nil && len(fd.Type.Results.List) == 1 {
+			if st, ok := fd.Type.Results.List[0].Type.(*ast.StarExpr); ok {
+				if id, ok := st.X.(*ast.Ident); ok && core == "" {
+					core = id.Name
+				}
+			}
+		}
+	}
+	for _, a := range api {
+		if fd, ok := g.funcs[a]; ok && core != "" && recvType(fd) != core {
+			delete(g.funcs, a) // declared on another type: "missing"
+		}
 	}
 	for _, a := range api {
 		g.reach(a)
@@ -918,6 +999,76 @@ func emitIR2(x *xl, fset *token.FileSet, f *ast.File, siteAt map[int]int, api []
 			} else {
 				b.WriteString("Func2 " + gstr(n) + " [] [] [TOther None \"missing\"]")
 			}
+		}
+		b.WriteString("].\n")
+	}
+	// the exported surface of the package: every exported function and method with its receiver
+	// type, and the type the constructor returns.  A wrapper type around the tied core, an extra
+	// exported method, API methods declared on another type than the one the constructor hands out
+	// all show here (and the API functions are only translated when their receiver is that type).
+	{
+		var api []string
+		for _, d := range f.Decls {
+			fd, ok := d.(*ast.FuncDecl)
+			if !ok || !fd.Name.IsExported() {
+				continue
+			}
+			if fd.Recv == nil {
+				res := ""
+				if fd.Type.Results != nil {
+					var rs []string
+					for _, r := range fd.Type.Results.List {
+						rs = append(rs, x.src(r.Type))
+					}
+					res = " -> " + strings.Join(rs, ", ")
+				}
+				api = append(api, "func "+fd.Name.Name+res)
+			} else {
+				api = append(api, recvType(fd)+"."+fd.Name.Name)
+			}
+		}
+		// who writes (or takes the address of) the package variables the model treats as constants:
+		// closedChan is closed once, in init(), and is the "count is zero" sentinel
+		for _, d := range f.Decls {
+			fd, ok := d.(*ast.FuncDecl)
+			if !ok || fd.Body == nil {
+				continue
+			}
+			writes := false
+			ast.Inspect(fd.Body, func(n ast.Node) bool {
+				switch t := n.(type) {
+				case *ast.AssignStmt:
+					for _, l := range t.Lhs {
+						if id, ok := l.(*ast.Ident); ok && id.Name == "closedChan" && t.Tok != token.DEFINE {
+							writes = true
+						}
+					}
+				case *ast.UnaryExpr:
+					if id, ok := t.X.(*ast.Ident); ok && t.Op == token.AND && id.Name == "closedChan" {
+						writes = true
+					}
+				case *ast.IncDecStmt:
+					if id, ok := t.X.(*ast.Ident); ok && id.Name == "closedChan" {
+						writes = true
+					}
+				}
+				return true
+			})
+			if writes {
+				name := fd.Name.Name
+				if fd.Recv != nil {
+					name = recvType(fd) + "." + name
+				}
+				api = append(api, "writes closedChan: "+name)
+			}
+		}
+		sort.Strings(api)
+		b.WriteString("\nDefinition gen_api : list string :=\n[")
+		for i, a := range api {
+			if i > 0 {
+				b.WriteString(";\n ")
+			}
+			b.WriteString(gstr(a))
 		}
 		b.WriteString("].\n")
 	}
